@@ -118,8 +118,8 @@ class Check:
         out = r.stdout + r.stderr
         if r.returncode == 0:
             return True, out, path
-        if 'FAIL' in out and ('--- FAIL' in out or 'panic:' in out):
-            return False, out, path
+        if 'FAIL' in out and ('--- FAIL' in out or 'panic:' in out or 'fatal error:' in out or 'unexpected signal' in out or 'SIGSEGV' in out or 'SIGBUS' in out):
+            return False, out, path      # a crash of the test binary (fault in assembly, runtime throw) is a failed replay, not a build problem
         return None, out, path  # build failure or other trouble: inconclusive
 
     def coverage_diff(self, pkg_rel, test_src, file_suffix, env_a, env_b, name='cover'):
